@@ -8,11 +8,13 @@ mod util;
 mod ops_edits;
 mod wire;
 mod ops_apply;
+mod ops_case;
 
 /// every `ops_*.rs` owns some operations: `dispatch(fields) -> Option<String>` (None = not mine)
 const HANDLERS: &[fn(&[&str]) -> Option<String>] = &[
     ops_edits::dispatch,
     ops_apply::dispatch,
+    ops_case::dispatch,
 ];
 
 fn dispatch(fields: &[&str]) -> String {
